@@ -9,7 +9,9 @@ RULE = ("the real generic code instantiated with (i) a scalar that logs every to
         "exactly the three narrowings of the Gamma draw (shape, coordinate 2E-2, tolerance); (ii) a double-double scalar (+ - * / sqrt to "
         "~106 bits): u, L, inverse, u-vectors, v recomputed in exact rationals from the double-double Feynman parameters must agree far "
         "beyond f64 precision. Non-trivial: L>=2")
-ASSUMPTIONS = ["double-double tolerance 1e-24 cond kappa relative (f64 shortcuts give >= 1e-17)"]
+ASSUMPTIONS = ["a widened f64 value counts as 'of the table' if it is a table entry, dod, cached_factor, a setting, the Gamma variate, an exactly "
+               "representable short number (multiple of 2^-12 below 2^28) or such a number plus a table constant",
+               "double-double tolerance 1e-24 cond kappa relative (f64 shortcuts give >= 1e-17)"]
 
 
 def narrowing_sites():
@@ -28,6 +30,40 @@ def narrowing_sites():
 
 # what the unchanged source contains: the three arguments of the Gamma draw, and the debug-log writes
 EXPECTED_SITES = [("gamma.rs", "a.to_f64(),"), ("gamma.rs", "p.to_f64(),"), ("gamma.rs", "epsilon_tolerance.to_f64(),")] + [("sampling.rs", "log")] * 7
+
+
+def short_dyadic(v):
+    """exactly representable 'small' constant: an integer multiple of 2^-12 below 2^28 (2, 0.5, 5.0, D/2, ...)"""
+    import math
+    return math.isfinite(v) and abs(v) < 2.0 ** 28 and (v * 4096.0) == math.floor(v * 4096.0)
+
+
+def foreign_widenings(t, s):
+    """values passed to from_f64 by the generic code that do not come from the table, the settings or the Gamma draw
+    ('computed ... from the user's inputs and from f64 constants of the table')"""
+    import math
+    tb = s["table"]
+    T = set()
+    for e in tb["entries"]:
+        T.add(b2f(e[2])); T.add(b2f(e[3]))
+    for key in ("dod", "cached"):
+        if key in s["built"]:
+            T.add(b2f(s["built"][key]))
+    if t.get("lambda") is not None:
+        T.add(b2f(t["lambda"]))
+    if "tol" in s["req"]:
+        T.add(b2f(s["req"]["tol"]))
+    bad = []
+    for b in t.get("widened_values", []):
+        v = b2f(b)
+        if v in T or short_dyadic(v) or not math.isfinite(v):
+            continue
+        # short number + table constant (e.g. D/2 * L + dod)
+        if any(math.isfinite(c) and short_dyadic(round((v - c) * 4096.0) / 4096.0) and abs((v - c) - round((v - c) * 4096.0) / 4096.0) <= 8 * abs(v) * 2.0 ** -52
+               for c in T):
+            continue
+        bad.append(v)
+    return bad
 
 
 def ddf(p):
@@ -61,6 +97,11 @@ def run(ctx):
             if nar != [[], [2 * n - 2], []] or t.get("perm_narrowings") != 0:
                 ctx.violation(f"values of the user's scalar type are narrowed to f64 outside the Gamma draw: narrowings {nar} (+{t.get('perm_narrowings')} while computing the Feynman parameters); expected [[], [{2*n-2}], []]",
                               req, expected=[[], [2 * n - 2], []], observed=nar); continue
+            bad = foreign_widenings(t, s)
+            ctx.count("widened_values", len(t.get("widened_values", [])))
+            if bad:
+                ctx.violation(f"f64 constants that are neither table constants, settings, the Gamma variate nor exactly representable short numbers enter "
+                              f"the computation through from_f64 (the user's precision is capped by them): {bad[:4]}", req, observed=bad); continue
             vals = [b2f(x["value"]) for x in t["narrowings"]]
             if vals[0] != b2f(s["built"]["dod"]) or vals[1] != s["xs"][2 * n - 2] or vals[2] != 5.0:
                 ctx.violation("the three narrowed values are not (dod, coordinate 2E-2, tolerance 5)", req, observed=vals)
